@@ -34,5 +34,9 @@ theorem C10_builtins_expect_lparen :
 example : Spec.C10 "\"%eval(1".toList (modelDump ⟨false, false, false⟩ "\"%eval(1".toList) = [] := by decide +kernel
 example : Spec.C10 "%do%scan(a,1)=1 %to 2;".toList (modelDump ⟨true, false, false⟩ "%do%scan(a,1)=1 %to 2;".toList) = [] := by
   decide +kernel
+/-- F12 (fixed by 5301e1d): the `)` owed for the open nesting level under an unterminated string is supplied -/
+example : Spec.C10 "%eval((1+\"".toList (modelDump ⟨false, false, false⟩ "%eval((1+\"".toList) = [] := by decide +kernel
+example : ((modelDump ⟨true, false, false⟩ "%m(a=(\"".toList).toks.map (·.ty)) =
+    [.MacroIdentifier, .LPAREN, .MacroString, .ASSIGN, .MacroString, .StringLiteral, .RPAREN, .RPAREN, .EOF] := by decide +kernel
 
 end SasLexer
